@@ -7,7 +7,7 @@ REPO=${2:-/repo}
 VERIF=$(cd "$(dirname "$0")" && pwd)
 CXX=clang++
 COMMON="-O1 -g -std=c++17 -fno-omit-frame-pointer -DGRAPHITE2_VERIF -DGRAPHITE2_NTRACING -DGRAPHITE2_STATIC -DGRAPHITE2_EXPORTING -Wno-deprecated-declarations"
-if [ "$FLAVOUR" = asan ]; then SAN="-fsanitize=address,undefined,float-cast-overflow -fno-sanitize-recover=all"; else SAN="-fsanitize=thread"; fi
+if [ "$FLAVOUR" = asan ]; then SAN="-fsanitize=address,undefined,float-cast-overflow -fno-sanitize-recover=all"; elif [ "$FLAVOUR" = tsan ]; then SAN="-fsanitize=thread"; else SAN="-DGRSIM_PLAIN=1 -gdwarf-4"; fi
 LIBFLAGS="$COMMON $SAN -fsanitize-coverage=trace-pc-guard -fno-rtti -fno-exceptions -I$REPO/include -I$REPO/src"
 SIMFLAGS="$COMMON $SAN -I$REPO/include -I$REPO/src -I$VERIF/sim"
 [ "$FLAVOUR" = tsan ] && SIMFLAGS="$COMMON -I$REPO/include -I$REPO/src -I$VERIF/sim -DGRSIM_TSAN_BUILD=1"
